@@ -8,29 +8,103 @@ let print_pos tag ps =
   List.iter (fun p -> Printf.printf " %s %s" (tok_of_q p.px) (tok_of_q p.py)) ps;
   print_newline ()
 
-(* track <id> <n> <np> <nops> ; np*(x y) ; ops *)
+let tok_of_x v = match v with
+  | XF q -> tok_of_q q | XPInf -> "inf" | XMInf -> "-inf" | XNaN -> "nan"
+
+let print_xpos tag ps =
+  print_string tag;
+  List.iter (fun (x, y) -> Printf.printf " %s %s" (tok_of_x x) (tok_of_x y)) ps;
+  print_newline ()
+
+(* track <id> <n> <np> <nops> ; np*(x y) ; ops
+   ops: kick <x|y> offs(n) | ident | fpnone | fp1 ip tab | fp2 ip tab data | fps e1 yc noise(np)     (hand-written model only)
+        gfp <fptrack> <ip> <e1> <zb0> <zb1> <hasdata> tab(n*ip) [data(n*n)] noise(np)                (both models)
+   prints "pos" (hand-written model) and "gpos" (the model assembled from Gen_Track.v) per op *)
 let do_track () =
   let id = next () in
   let n = nexti () in let np = nexti () in let nops = nexti () in
   let ps = List.init np (fun _ -> nextpos ()) in
   let ops = List.init nops (fun _ ->
     match next () with
-    | "kick" -> let d = next () in let offs = nextqs n in LKick ((d = "x"), offs)
-    | "ident" -> LIdent
-    | "fpnone" -> LFPNone
-    | "fp1" -> let ip = nexti () in let h = next_table (n * ip) in LFP1 (z_of_int ip, h)
+    | "kick" -> let d = next () in let offs = nextqs n in (LKick ((d = "x"), offs), GLKick ((d = "x"), offs))
+    | "ident" -> (LIdent, GLIdent)
+    | "fpnone" -> (LFPNone, GLFP (z_of_int 0, z_of_int 0, [], [], q_of_tok "0", q_of_tok "0", q_of_tok "0", []))
+    | "fp1" -> let ip = nexti () in let h = next_table (n * ip) in
+               (LFP1 (z_of_int ip, h), GLFP (z_of_int 1, z_of_int ip, h, [], q_of_tok "0", q_of_tok "0", q_of_tok "0", []))
     | "fp2" -> let ip = nexti () in let h = next_table (n * ip) in let d = nextqs (n * n) in
-               LFP2 (z_of_int ip, h, d)
-    | "fps" -> let e1 = nextq () in let yc = nextq () in let noise = nextqs np in LFPStoch (e1, yc, noise)
+               (LFP2 (z_of_int ip, h, d), GLFP (z_of_int 2, z_of_int ip, h, d, q_of_tok "0", q_of_tok "0", q_of_tok "0", []))
+    | "fps" -> let e1 = nextq () in let yc = nextq () in let noise = nextqs np in
+               (LFPStoch (e1, yc, noise), GLFP (z_of_int 3, z_of_int 0, [], [], e1, q_of_tok "0", yc, noise))
+    | "gfp" ->
+        let ft = nexti () in let ip = nexti () in
+        let e1 = nextq () in let zb0 = nextq () in let zb1 = nextq () in
+        let hasdata = nexti () in
+        let h = next_table (n * ip) in
+        let d = if hasdata = 1 then nextqs (n * n) else [] in
+        let noise = nextqs np in
+        let g = GLFP (z_of_int ft, z_of_int ip, h, d, e1, zb0, zb1, noise) in
+        ((match ft with
+          | 1 -> LFP1 (z_of_int ip, h)
+          | 2 -> LFP2 (z_of_int ip, h, d)
+          | 3 -> LFPStoch (e1, zb1, noise)
+          | _ -> LFPNone), g)
     | s -> failwith ("unknown op " ^ s)) in
   let zn = z_of_int n in
-  let res = run_list zn ops ps in
+  let res = run_list zn (List.map fst ops) ps in
+  let gres = gen_run_list zn (List.map snd ops) ps in
   Printf.printf "case %s\n" id;
   List.iter (print_pos "pos") res;
+  List.iter (print_xpos "gpos") gres;
   let last = match List.rev res with [] -> ps | l :: _ -> l in
   print_string "idx";
   List.iter (fun (d, (ix, iy)) -> Printf.printf " %s %s %s" (if d then "1" else "0") (hex_of_z ix) (hex_of_z iy))
     (lookup_list zn last);
+  print_newline ();
+  print_string "end\n"
+
+(* dyntrack <id> <n> <tan> <syncphase> <bl2phase> <xcenter> <delta0> <steps> <np> offs0(n) queue(steps*(phase ampl))
+            then per step np*(x y): the particles before `rfm->applyToAll`
+   one step = DynamicRFKickMap::apply as generated (statement order of the source) followed by KickMap::applyTo
+   reading `_offset`; offsets and queue are threaded by the model.  prints per step "offs" and "pos" *)
+let do_dyntrack () =
+  let id = next () in
+  let n = nexti () in
+  let tanq = nextq () in let sync = nextq () in let bl2 = nextq () in let xc = nextq () in let d0 = nextq () in
+  let steps = nexti () in let np = nexti () in
+  let offs0 = nextqs n in
+  let queue = List.init steps (fun _ -> let a = nextq () in let b = nextq () in (a, b)) in
+  let zn = z_of_int n in
+  let m = linear_rf tanq sync bl2 xc d0 zn in
+  Printf.printf "case %s\n" id;
+  let o = ref offs0 and q = ref queue in
+  for _k = 1 to steps do
+    let ps = List.init np (fun _ -> nextpos ()) in
+    let ((o', q'), ps') = dyn_step_list m zn !o !q ps in
+    o := o'; q := q';
+    print_qs "offs" o';
+    print_pos "pos" ps'
+  done;
+  print_string "end\n"
+
+(* load <id> <n> <amin0> <adelta0> <amin1> <adelta1> <np> np*(q p) : main()'s loading through the generated PhaseSpace::x / y
+   append <id> <n> <np> ax0(n) ax1(n) np*(x y)                     : HDF5File::appendTracks through the generated pieces *)
+let do_load () =
+  let id = next () in
+  let n = nexti () in
+  let a0 = nextq () in let d0 = nextq () in let a1 = nextq () in let d1 = nextq () in
+  let np = nexti () in
+  let cs = List.init np (fun _ -> let a = nextq () in let b = nextq () in (a, b)) in
+  Printf.printf "case %s\n" id;
+  print_xpos "pos" (gen_load_list (z_of_int n) a0 d0 a1 d1 cs);
+  print_string "end\n"
+
+let do_append () =
+  let id = next () in
+  let n = nexti () in let np = nexti () in
+  let ax0 = nextqs n in let ax1 = nextqs n in
+  let ps = List.init np (fun _ -> nextpos ()) in
+  Printf.printf "case %s\nrec" id;
+  List.iter (fun (a, b) -> Printf.printf " %s %s" (tok_of_q a) (tok_of_q b)) (gen_append_list ax0 ax1 ps);
   print_newline ();
   print_string "end\n"
 
@@ -64,4 +138,5 @@ let do_blob () =
   print_qs "out" out;
   print_string "end\n"
 
-let () = run_main ["track", do_track; "fptab", do_fptab; "blob", do_blob]
+let () = run_main ["track", do_track; "fptab", do_fptab; "blob", do_blob; "dyntrack", do_dyntrack;
+                    "load", do_load; "append", do_append]
